@@ -142,6 +142,9 @@ def run(prop, tier, seed):
                            "all layouts of capacities 0..=6 x every operation with every in-range argument", extra_cov=extra)
     if prop == "C18":
         return run_c18(tier, seed)
+    if prop == "C15":
+        import c15
+        return c15.run(tier, seed)
     cc.inconclusive(f"property {prop} has no engine yet")
 
 
@@ -303,6 +306,9 @@ def replay(prop, path):
             cc.log(f"VIOLATION property={prop} replay={path}")
             sys.exit(1)
         sys.exit(0)
+    if prop == "C15":
+        import c15
+        return c15.replay(path)
     if prop == "C18":
         meta = json.load(open(path))
         sub = meta.get("sub_property", "C01")
